@@ -16,6 +16,7 @@ INVARIANT UlistMechanism
 INVARIANT KeysCommute
 INVARIANT SubsetLaws
 INVARIANT PlusLaw
+INVARIANT TreePlusLaw
 INVARIANT SelectLaw
 INVARIANT RelabelLaw
 INVARIANT BlanketLaw
